@@ -14,6 +14,7 @@ package spnego
 //@ define ctx_is_accepted(c) := ctxhasval(c) && ctxkeystr(c, "github.com/jcmturner/gokrb5/v8/ctxCredentials") && tagof(ctxval(c)) == typeid("*credentials.Credentials") && iref(ctxval(c)) == apreqCreds
 
 //@ func (*spnego.KRB5Token).Verify(m) (ok, st)
+//@   havocs apreqAccepted, apreqCreds, lastIsReplay, lastPACBad
 //@   modifies m.context, m.APReq.Ticket.DecryptedEncPart, m.APReq.Authenticator
 //@   trusted_frame see the contracts of service.VerifyAPREQ and messages.APReq.Verify
 //@   ensures ok ==> apreqAccepted && st.Code == 524288 && ctx_is_accepted(m.context)
@@ -27,19 +28,23 @@ package spnego
 //@ define mech_accepted(mt) := tagof(mt) == typeid("*spnego.KRB5Token") && ctx_is_accepted(unbox(mt, "*spnego.KRB5Token").context)
 
 //@ func (*spnego.NegTokenInit).Verify(n) (ok, st)
+//@   havocs apreqAccepted, apreqCreds, lastIsReplay, lastPACBad
 //@   ensures ok ==> apreqAccepted && st.Code == 524288 && mech_accepted(n.mechToken)
 //@   ensures !ok ==> st.Code != 524288
 //@   loop 1 invariant -1 <= rangeindex && rangeindex < len(n.MechTypes)
 
 //@ func (*spnego.NegTokenResp).Verify(n) (ok, st)
+//@   havocs apreqAccepted, apreqCreds, lastIsReplay, lastPACBad
 //@   ensures ok ==> apreqAccepted && st.Code == 524288 && mech_accepted(n.mechToken)
 //@   ensures !ok ==> st.Code != 524288
 
 //@ func (*spnego.SPNEGOToken).Verify(s) (ok, st)
+//@   havocs apreqAccepted, apreqCreds, lastIsReplay, lastPACBad
 //@   ensures ok ==> apreqAccepted && st.Code == 524288 && ctx_is_accepted(s.context)
 //@   ensures !ok ==> st.Code != 524288
 
 //@ func (*spnego.SPNEGO).AcceptSecContext(s, ct) (ok, ctx, st)
+//@   havocs apreqAccepted, apreqCreds, lastIsReplay, lastPACBad
 //@   ensures ok ==> apreqAccepted && st.Code == 524288 && ctx_is_accepted(ctx)
 //@   ensures !ok ==> st.Code != 524288
 
@@ -74,5 +79,6 @@ package spnego
 //@   ensures served || (respStatus == 401 && respAuthSet) || respStatus == 500
 //@   ensures served ==> respStatus == 0
 //@ func spnego.getAuthorizationNegotiationHeaderAsSPNEGOToken(spnego, r, w) (st, err)
+//@   havocs respStatus, respAuthSet
 //@   ensures st == nil || err != nil ==> respStatus == 401 && respAuthSet
 //@   ensures st != nil && err == nil ==> respStatus == old(respStatus) && respAuthSet == old(respAuthSet)
